@@ -85,7 +85,7 @@ func (g *opGen) argString(f *ast.FieldDefinition) string {
 			lit, val = fmt.Sprint(n), n
 		case "String":
 			s := fmt.Sprintf("x%d", g.rng.Intn(9))
-			lit, val = fmt.Sprintf("%q", s), s
+			lit, val = strLit(s), s
 		case "ID":
 			id := "nope"
 			if len(g.opt.IDs) > 0 {
@@ -161,6 +161,15 @@ func (g *opGen) argString(f *ast.FieldDefinition) string {
 	return "(" + strings.Join(parts, ", ") + ")"
 }
 
+// strLit renders a string literal; one value in nine is written as a block string (same value, other token kind).
+// Decided by the value, not by a draw, so the random stream of every generator stays as it was.
+func strLit(s string) string {
+	if s == "x8" {
+		return `"""` + s + `"""`
+	}
+	return fmt.Sprintf("%q", s)
+}
+
 // inputValue renders a value of input type t as a literal (with variables at some leaves, at some lists and at
 // some nested objects when vars is set) together with the same value as JSON.
 func (g *opGen) inputValue(t *ast.Type, depth int, vars bool) (string, interface{}) {
@@ -229,7 +238,7 @@ func (g *opGen) inputValue(t *ast.Type, depth int, vars bool) (string, interface
 		lit, val = fmt.Sprint(b), b
 	default:
 		x := fmt.Sprintf("x%d", g.rng.Intn(9))
-		lit, val = fmt.Sprintf("%q", x), x
+		lit, val = strLit(x), x
 	}
 	if vars && g.rng.Intn(2) == 0 {
 		decl := t.String()
@@ -274,7 +283,7 @@ func (g *opGen) freeValue(depth int) (string, interface{}) {
 		lit, val, decl = fmt.Sprint(n), n, "Int"
 	} else {
 		x := fmt.Sprintf("x%d", g.rng.Intn(9))
-		lit, val, decl = fmt.Sprintf("%q", x), x, "String"
+		lit, val, decl = strLit(x), x, "String"
 	}
 	if g.opt.Variables && g.rng.Intn(2) == 0 {
 		name := fmt.Sprintf("v%d", len(g.vars))
